@@ -1278,10 +1278,13 @@ class tensor:
             return self.copy()
 
         # Check for special case of an order-1 object, has no effect
-        if (order == 1).all():
+        if self.ndims == 1 and (order == 1).all():
             return self.copy()
 
-        # Np transpose does error checking on order, acts as permutation
+        # Np transpose accepts negative axes, so check the permutation here
+        if np.any(np.sort(order) != np.arange(0, self.ndims)):
+            assert False, "Invalid permutation order"
+
 
         # np.transpose returns a view and to_memory_order keeps it when the layout
         # already matches (e.g. the identity permutation): always copy
